@@ -20,6 +20,11 @@ field count (replayed by the driver as `timeout`).
 -/
 import KafkaVerif.Model.Codec
 import KafkaVerif.Gen.DecoderCfg
+import KafkaVerif.Lemmas.RecordScanSafe
+import KafkaVerif.Model.CodecRecords
+import KafkaVerif.Lemmas.RecordScanExact
+import KafkaVerif.Lemmas.CodecAccount
+import KafkaVerif.Gen.RecordCfg
 
 namespace KV.C20
 open KV KV.Wire KV.Codec
@@ -44,8 +49,12 @@ theorem readInt_safe (k : Nat) (d : Dec) : Safe (readInt k d) :=
 theorem readUvarint_safe (d : Dec) : Safe (readUvarint d) := by
   unfold readUvarint; split <;> simp [Safe]
 
-theorem readLen_safe (cfg : Cfg) (hb : cfg.bounded = true) (n : Int) (d : Dec) : Safe (readLen cfg n d) := by
-  unfold readLen; simp only [hb, if_true]
+/-- the two facts the safety theorems need of the decoder: lengths and counts are checked against `remain` before anything is
+allocated (G1–G5), and what is allocated follows the data that ARRIVES (G8, G9) — `remain` is only what the size prefix announces -/
+def Guarded (cfg : Cfg) : Prop := cfg.bounded = true ∧ cfg.growing = true
+
+theorem readLen_safe (cfg : Cfg) (hb : Guarded cfg) (n : Int) (d : Dec) : Safe (readLen cfg n d) := by
+  unfold readLen; simp only [hb.1, hb.2, if_true, Bool.not_true, Bool.false_and, Bool.false_eq_true, if_false]
   split
   · simp [Safe]
   · split
@@ -53,9 +62,9 @@ theorem readLen_safe (cfg : Cfg) (hb : cfg.bounded = true) (n : Int) (d : Dec) :
     · split <;> simp [Safe]
 
 /-- an allocation that is granted never exceeds what is left of the frame -/
-theorem readLen_le_remain (cfg : Cfg) (hb : cfg.bounded = true) (n : Int) (d d' : Dec) (bs : Bytes)
+theorem readLen_le_remain (cfg : Cfg) (hb : Guarded cfg) (n : Int) (d d' : Dec) (bs : Bytes)
     (h : readLen cfg n d = .ok bs d') : 0 ≤ n ∧ n.toNat ≤ d.remain ∧ bs.length = n.toNat := by
-  unfold readLen at h; simp only [hb, if_true] at h
+  unfold readLen at h; simp only [hb.1, hb.2, if_true, Bool.not_true, Bool.false_and, Bool.false_eq_true, if_false] at h
   split at h
   · simp at h
   · split at h
@@ -68,23 +77,23 @@ theorem readLen_le_remain (cfg : Cfg) (hb : cfg.bounded = true) (n : Int) (d d' 
         simp [List.length_take]; omega
       · simp at h
 
-theorem allocElems_safe (cfg : Cfg) (hb : cfg.bounded = true) (n : Int) (d : Dec) : Safe (allocElems cfg n d) := by
-  unfold allocElems; simp only [hb, if_true]
+theorem allocElems_safe (cfg : Cfg) (hb : Guarded cfg) (n : Int) (d : Dec) : Safe (allocElems cfg n d) := by
+  unfold allocElems; simp only [hb.1, hb.2, if_true, Bool.not_true, Bool.false_and, Bool.false_eq_true, if_false]
   split
   · simp [Safe]
   · split <;> simp [Safe]
 
-theorem allocElems_le_remain (cfg : Cfg) (hb : cfg.bounded = true) (n : Int) (d d' : Dec) (k : Nat)
+theorem allocElems_le_remain (cfg : Cfg) (hb : Guarded cfg) (n : Int) (d d' : Dec) (k : Nat)
     (h : allocElems cfg n d = .ok k d') : k ≤ d.remain := by
-  unfold allocElems at h; simp only [hb, if_true] at h
+  unfold allocElems at h; simp only [hb.1, hb.2, if_true, Bool.not_true, Bool.false_and, Bool.false_eq_true, if_false] at h
   split at h
   · simp at h
   · split at h
     · simp at h
     · simp only [Res.ok.injEq] at h; omega
 
-theorem tagCount_safe (cfg : Cfg) (u : Nat) (d : Dec) (hb : cfg.bounded = true) : Safe (tagCount cfg u d) := by
-  unfold tagCount; simp only [hb, if_true]
+theorem tagCount_safe (cfg : Cfg) (u : Nat) (d : Dec) (hb : Guarded cfg) : Safe (tagCount cfg u d) := by
+  unfold tagCount; simp only [hb.1, hb.2, if_true, Bool.not_true, Bool.false_and, Bool.false_eq_true, if_false]
   split
   · simp [Safe]
   · split <;> simp [Safe]
@@ -98,7 +107,7 @@ theorem decodeElems_safe (f : Dec → Res Val) (z : Val) (hf : ∀ d, Safe (f d)
     · simp [Safe]
     · exact bind_safe _ _ (hf d) fun _ d => bind_safe _ _ (decodeElems_safe f z hf n d) fun _ _ => by simp [Safe]
 
-theorem taggedLoop_safe (cfg : Cfg) (hb : cfg.bounded = true) (lookup : Int → Option (Nat × (Dec → Res Val)))
+theorem taggedLoop_safe (cfg : Cfg) (hb : Guarded cfg) (lookup : Int → Option (Nat × (Dec → Res Val)))
     (hl : ∀ id idx dec, lookup id = some (idx, dec) → ∀ d, Safe (dec d)) :
     ∀ (n : Nat) (slots : List Val) (d : Dec), Safe (taggedLoop cfg lookup n slots d)
   | 0, slots, d => by simp [taggedLoop, Safe]
@@ -137,7 +146,7 @@ theorem tagLookup_safe (cfg : Cfg) : ∀ (ids : List Int) (ts : List Ty), (∀ t
         exact hts t (by simp)
       · simp at h
 
-theorem ds_string (cfg : Cfg) (hb : cfg.bounded = true) (c n : Bool) : DS cfg (.string c n) := by
+theorem ds_string (cfg : Cfg) (hb : Guarded cfg) (c n : Bool) : DS cfg (.string c n) := by
   intro d
   simp only [decode]
   split
@@ -150,7 +159,7 @@ theorem ds_string (cfg : Cfg) (hb : cfg.bounded = true) (c n : Bool) : DS cfg (.
       · simp [Safe]
       · exact bind_safe _ _ (readLen_safe cfg hb _ d) fun _ _ => by simp [Safe]
 
-theorem ds_bytes (cfg : Cfg) (hb : cfg.bounded = true) (c n : Bool) : DS cfg (.bytes c n) := by
+theorem ds_bytes (cfg : Cfg) (hb : Guarded cfg) (c n : Bool) : DS cfg (.bytes c n) := by
   intro d
   simp only [decode]
   split
@@ -163,7 +172,7 @@ theorem ds_bytes (cfg : Cfg) (hb : cfg.bounded = true) (c n : Bool) : DS cfg (.b
       · simp [Safe]
       · exact bind_safe _ _ (readLen_safe cfg hb _ d) fun _ _ => by simp [Safe]
 
-theorem ds_array (cfg : Cfg) (hb : cfg.bounded = true) (c n : Bool) (t : Ty) (ht : DS cfg t) : DS cfg (.array c n t) := by
+theorem ds_array (cfg : Cfg) (hb : Guarded cfg) (c n : Bool) (t : Ty) (ht : DS cfg t) : DS cfg (.array c n t) := by
   intro d
   simp only [decode]
   split
@@ -178,7 +187,7 @@ theorem ds_array (cfg : Cfg) (hb : cfg.bounded = true) (c n : Bool) (t : Ty) (ht
       · exact bind_safe _ _ (allocElems_safe cfg hb _ d) fun k d =>
           bind_safe _ _ (decodeElems_safe _ _ ht k d) fun _ _ => by simp [Safe]
 
-theorem ds_struct (cfg : Cfg) (hb : cfg.bounded = true) (flex : Bool) (fs : List Ty) (ids : List Int) (ts : List Ty)
+theorem ds_struct (cfg : Cfg) (hb : Guarded cfg) (flex : Bool) (fs : List Ty) (ids : List Int) (ts : List Ty)
     (hfs : ∀ t ∈ fs, DS cfg t) (hts : ∀ t ∈ ts, DS cfg t) : DS cfg (.struct flex fs ids ts) := by
   intro d
   simp only [decode]
@@ -189,7 +198,7 @@ theorem ds_struct (cfg : Cfg) (hb : cfg.bounded = true) (flex : Bool) (fs : List
         fun _ _ => by simp [Safe]
   · simp [Safe]
 
-theorem ds_unit (cfg : Cfg) (hb : cfg.bounded = true) (flex : Bool) : DS cfg (.unit flex) := by
+theorem ds_unit (cfg : Cfg) (hb : Guarded cfg) (flex : Bool) : DS cfg (.unit flex) := by
   intro d
   simp only [decode]
   split
@@ -197,13 +206,19 @@ theorem ds_unit (cfg : Cfg) (hb : cfg.bounded = true) (flex : Bool) : DS cfg (.u
       bind_safe _ _ (taggedLoop_safe cfg hb _ (fun id idx dec h => by simp at h) k _ d) fun _ _ => by simp [Safe]
   · simp [Safe]
 
-theorem ds_records (cfg : Cfg) (hb : cfg.bounded = true) : DS cfg .records := by
+/-- the record-set reader plugged into the decoder (if any) is itself safe -/
+def RecsSafe (cfg : Cfg) : Prop := ∀ h, cfg.recs = some h → ∀ d, Safe (h d)
+
+theorem ds_records (cfg : Cfg) (hb : Guarded cfg) (hr : RecsSafe cfg) : DS cfg .records := by
   intro d
   simp only [decode]
-  exact bind_safe _ _ (readInt_safe 4 d) fun n d => by
-    split
-    · simp [Safe]
-    · exact bind_safe _ _ (readLen_safe cfg hb _ d) fun _ _ => by simp [Safe]
+  split
+  · rename_i h heq
+    exact hr h heq d
+  · exact bind_safe _ _ (readInt_safe 4 d) fun n d => by
+      split
+      · simp [Safe]
+      · exact bind_safe _ _ (readLen_safe cfg hb _ d) fun _ _ => by simp [Safe]
 
 theorem ds_prim (cfg : Cfg) (t : Ty) (k : Nat) (f : Bytes → Val)
     (h : ∀ d, decode cfg t d = (readN k d).bind fun bs d => .ok (f bs) d) : DS cfg t := by
@@ -214,7 +229,7 @@ theorem ds_int (cfg : Cfg) (t : Ty) (k : Nat)
   intro d; rw [h]; exact bind_safe _ _ (readInt_safe k d) fun _ _ => by simp [Safe]
 
 mutual
-theorem ds_all (cfg : Cfg) (hb : cfg.bounded = true) (t : Ty) : DS cfg t :=
+theorem ds_all (cfg : Cfg) (hb : Guarded cfg) (hr : RecsSafe cfg) (t : Ty) : DS cfg t :=
   match t with
   | .bool => ds_prim cfg _ 1 (fun bs => .bool (fromBE bs != 0)) (fun _ => by simp [decode])
   | .int8 => ds_int cfg _ 1 (fun _ => by simp [decode])
@@ -224,22 +239,22 @@ theorem ds_all (cfg : Cfg) (hb : cfg.bounded = true) (t : Ty) : DS cfg t :=
   | .float64 => ds_prim cfg _ 8 (fun bs => .int (fromBE bs)) (fun _ => by simp [decode])
   | .string c n => ds_string cfg hb c n
   | .bytes c n => ds_bytes cfg hb c n
-  | .array c n t => ds_array cfg hb c n t (ds_all cfg hb t)
-  | .struct flex fs ids ts => ds_struct cfg hb flex fs ids ts (ds_list cfg hb fs) (ds_list cfg hb ts)
+  | .array c n t => ds_array cfg hb c n t (ds_all cfg hb hr t)
+  | .struct flex fs ids ts => ds_struct cfg hb flex fs ids ts (ds_list cfg hb hr fs) (ds_list cfg hb hr ts)
   | .unit flex => ds_unit cfg hb flex
-  | .records => ds_records cfg hb
+  | .records => ds_records cfg hb hr
 termination_by structural t
-theorem ds_list (cfg : Cfg) (hb : cfg.bounded = true) (ts : List Ty) : ∀ t ∈ ts, DS cfg t :=
+theorem ds_list (cfg : Cfg) (hb : Guarded cfg) (hr : RecsSafe cfg) (ts : List Ty) : ∀ t ∈ ts, DS cfg t :=
   match ts with
   | [] => fun _ h => by simp at h
   | t :: ts => fun t' h => by
     rcases List.mem_cons.1 h with h | h
-    · exact h ▸ ds_all cfg hb t
-    · exact ds_list cfg hb ts t' h
+    · exact h ▸ ds_all cfg hb hr t
+    · exact ds_list cfg hb hr ts t' h
 termination_by structural ts
 end
 
-theorem skipHeaderTags_safe (cfg : Cfg) (hb : cfg.bounded = true) : ∀ (n : Nat) (d : Dec), Safe (skipHeaderTags cfg n d)
+theorem skipHeaderTags_safe (cfg : Cfg) (hb : Guarded cfg) : ∀ (n : Nat) (d : Dec), Safe (skipHeaderTags cfg n d)
   | 0, d => by simp [skipHeaderTags, Safe]
   | n + 1, d => by
     unfold skipHeaderTags
@@ -251,19 +266,19 @@ theorem discardAll_safe (d : Dec) : Safe (discardAll d) := by
 
 /-- **C20, body.**  For every schema type, every decoder state (arbitrary bytes, arbitrary frame size): the
 bounded decoder returns a message or an error — no panic, no allocation beyond the bytes left in the frame. -/
-theorem decode_total_bounded (cfg : Cfg) (hb : cfg.bounded = true) (t : Ty) (inp : Bytes) (remain : Nat) :
-    Safe (decode cfg t ⟨inp, remain⟩) := ds_all cfg hb t ⟨inp, remain⟩
+theorem decode_total_bounded (cfg : Cfg) (hb : Guarded cfg) (hr : RecsSafe cfg) (t : Ty) (inp : Bytes) (remain : Nat) :
+    Safe (decode cfg t ⟨inp, remain⟩) := ds_all cfg hb hr t ⟨inp, remain⟩
 
 /-- **C20, frame.**  `ReadResponse` on an arbitrary byte stream, for every response schema: the size prefix
 (negative, huge, lying), the header tag buffer and the body cannot make it panic or balloon. -/
-theorem readResponse_total_bounded (cfg : Cfg) (hb : cfg.bounded = true) (flex : Bool) (t : Ty) (stream : Bytes) :
+theorem readResponse_total_bounded (cfg : Cfg) (hb : Guarded cfg) (hr : RecsSafe cfg) (flex : Bool) (t : Ty) (stream : Bytes) :
     Safe (readResponse cfg flex t stream) := by
   unfold readResponse
   refine bind_safe _ _ (readInt_safe 4 _) fun size d => ?_
   split
-  · simp [hb, Safe]
+  · simp [hb.1, Safe]
   · refine bind_safe _ _ (readInt_safe 4 _) fun corr d => bind_safe _ _ ?_ fun _ d =>
-      bind_safe _ _ (ds_all cfg hb t d) fun v d => bind_safe _ _ (discardAll_safe d) fun _ _ => by simp [Safe]
+      bind_safe _ _ (ds_all cfg hb hr t d) fun v d => bind_safe _ _ (discardAll_safe d) fun _ _ => by simp [Safe]
     split
     · exact bind_safe _ _ (readUvarint_safe d) fun n d => bind_safe _ _ (tagCount_safe cfg n d hb) fun k d =>
         skipHeaderTags_safe cfg hb k d
@@ -272,10 +287,202 @@ theorem readResponse_total_bounded (cfg : Cfg) (hb : cfg.bounded = true) (flex :
 /-- the decoder of the CURRENT source tree is the bounded one (fact re-extracted on every run) -/
 theorem source_decoder_is_bounded : Gen.decoderCfg.bounded = true := by decide
 
+/-- … and allocates as the data arrives (G8 ∧ G9, the fixes of C20-D30 / C20-D33) -/
+theorem source_decoder_guarded : Guarded Gen.decoderCfg := ⟨by decide, by decide⟩
+
+/-- the decoder allocates arrays as their elements arrive (fact G8, re-extracted on every run): a count inside the ANNOUNCED
+frame size but beyond the bytes received (C20-D30: size prefix 2^31-1 and count 2^27 in 12 bytes) does not allocate ahead of the
+data.  The model's allocation bound is stated against `remain`; this fact and the `lying-size-and-count` frames of the check
+cover the gap between announced and received. -/
+theorem source_arrays_grow : Gen.arraysGrow = true := by decide
+
+/-- the same for strings and bytes (fact G9, C20-D33: `decoder.read` no longer allocates an announced length beyond 64 KiB ahead of
+the data) -/
+theorem source_reads_grow : Gen.readsGrow = true := by decide
+
+/-- the tagged-field loops stop at the first decoder error (fact G10, C20-D34): the model's short-circuit at the first error
+(`Res.bind`) is what the code does, also for a count inside a lying frame size -/
+theorem source_tag_loops_stop : Gen.tagLoopsStop = true := by decide
+
 /-- C20 for the code as it is now -/
 theorem readResponse_total_source (flex : Bool) (t : Ty) (stream : Bytes) :
     Safe (readResponse Gen.decoderCfg flex t stream) :=
-  readResponse_total_bounded _ source_decoder_is_bounded flex t stream
+  readResponse_total_bounded _ source_decoder_guarded (fun h hh => by simp [Gen.decoderCfg] at hh) flex t stream
+
+/-- **C20, request frames** (`ReadRequest`, the other place a frame size is taken from the wire): arbitrary bytes — size
+prefix, client-id length, header tag buffer, body — give a request or an error. -/
+theorem readRequest_total_bounded (cfg : Cfg) (hb : Guarded cfg) (hr : RecsSafe cfg) (flex : Bool) (t : Ty) (stream : Bytes) :
+    Safe (readRequest cfg flex t stream) := by
+  unfold readRequest
+  refine bind_safe _ _ (readInt_safe 4 _) fun size d => ?_
+  split
+  · simp [hb.1, Safe]
+  · refine bind_safe _ _ (readInt_safe 2 _) fun _ d => bind_safe _ _ (readInt_safe 2 _) fun _ d =>
+      bind_safe _ _ (readInt_safe 4 _) fun _ d => bind_safe _ _ (ds_all cfg hb hr _ d) fun _ d =>
+      bind_safe _ _ ?_ fun _ _ => by simp [Safe]
+    unfold readRequestBody
+    refine bind_safe _ _ ?_ fun _ d =>
+      bind_safe _ _ (ds_all cfg hb hr t d) fun v d => bind_safe _ _ (discardAll_safe d) fun _ _ => by simp [Safe]
+    split
+    · exact bind_safe _ _ (readUvarint_safe d) fun n d => bind_safe _ _ (tagCount_safe cfg n d hb) fun k d =>
+        skipHeaderTags_safe cfg hb k d
+    · simp [Safe]
+
+theorem readRequest_total_source (flex : Bool) (t : Ty) (stream : Bytes) :
+    Safe (readRequest Gen.decoderCfg flex t stream) :=
+  readRequest_total_bounded _ source_decoder_guarded (fun h hh => by simp [Gen.decoderCfg] at hh) flex t stream
+
+/-! ### the SASL raw exchange -/
+
+/-- **C20, un-framed SASL token** (`protocol.Conn.RoundTrip` → `RawExchange` when the broker speaks SaslHandshake v0): whatever the
+4-byte length says — negative, 2^31-1 — the outcome is the token or an error. -/
+theorem saslReadResp_safe (c : SaslCfg) (h1 : c.negChecked = true) (h2 : c.grows = true) (stream : Bytes) :
+    Safe (saslReadResp c stream) := by
+  unfold saslReadResp
+  refine bind_safe _ _ (readInt_safe 4 _) fun n d => ?_
+  split
+  · simp [h1, Safe]
+  · split <;> simp [h2, Safe]
+
+theorem source_sasl_guards : Gen.saslCfg.negChecked = true ∧ Gen.saslCfg.grows = true := by decide
+
+theorem saslReadResp_safe_source (stream : Bytes) : Safe (saslReadResp Gen.saslCfg stream) :=
+  saslReadResp_safe _ source_sasl_guards.1 source_sasl_guards.2 stream
+
+/-! ### record sets: `RecordSet.ReadFrom`, `readFromVersion1`, `readFromVersion2` inside the frame decoder -/
+
+theorem recsHandler_safe (rc : KV.RecordScan.RCfg) (hg : rc.allGuards = true) (crcI crcC : Bytes → Nat)
+    (dcmp : Int → Bytes → Option Bytes) (d : Dec) : Safe (recsHandler rc crcI crcC dcmp d) := by
+  have h := KV.RecordScan.readSet_safe rc hg crcI crcC dcmp d.inp d.remain
+  have hr : rc.readGuard = true := by
+    simp only [KV.RecordScan.RCfg.allGuards, Bool.and_eq_true] at hg
+    exact hg.1.1.1.1.1.2
+  unfold recsHandler
+  split
+  · split <;> simp [hr, Safe]
+  · simp [Safe]
+  · rename_i heq; rw [heq] at h; exact h
+  · rename_i heq; rw [heq] at h; exact h
+
+/-- **C20 including record-batch and message lengths.**  For every response schema, every byte stream, every CRC
+and decompression function: `ReadResponse` with the record-set reader whose guards are all present returns a
+message or an error — the frame size, every reflective length/count, the record-set size, message sizes, key and
+value lengths of v0/v1 messages, `batchLength`, `numRecords`, and every record / key / value / header varint of v2
+batches cannot make it panic or allocate beyond the bytes that hold the data. -/
+theorem readResponse_total_with_records (cfg : Cfg) (hb : Guarded cfg) (rc : KV.RecordScan.RCfg)
+    (hg : rc.allGuards = true) (crcI crcC : Bytes → Nat) (dcmp : Int → Bytes → Option Bytes)
+    (flex : Bool) (t : Ty) (stream : Bytes) :
+    Safe (readResponse (withRecords cfg rc crcI crcC dcmp) flex t stream) :=
+  readResponse_total_bounded (withRecords cfg rc crcI crcC dcmp) ⟨by simpa [withRecords] using hb.1, by simpa [withRecords] using hb.2⟩
+    (fun h hh => by
+      have : h = recsHandler rc crcI crcC dcmp := by
+        simp only [withRecords] at hh
+        exact (Option.some.inj hh).symm
+      subst this
+      exact recsHandler_safe rc hg crcI crcC dcmp) flex t stream
+
+/-- the guards of the CURRENT source tree are all present (facts re-extracted on every run) -/
+theorem source_record_guards : Gen.recordCfg.allGuards = true := by decide
+
+/-- C20 (with record sets) for the code as it is now -/
+theorem readResponse_total_source_with_records (crcI crcC : Bytes → Nat) (dcmp : Int → Bytes → Option Bytes)
+    (flex : Bool) (t : Ty) (stream : Bytes) :
+    Safe (readResponse (withRecords Gen.decoderCfg Gen.recordCfg crcI crcC dcmp) flex t stream) :=
+  readResponse_total_with_records _ source_decoder_guarded _ source_record_guards crcI crcC dcmp flex t stream
+
+/-! ### "… the outcome is an error or a message, nothing else": no over-read either -/
+
+theorem recsHandler_acc (rc : KV.RecordScan.RCfg) (hacc : rc.accountAfterDiscard = true) (crcI crcC : Bytes → Nat)
+    (dcmp : Int → Bytes → Option Bytes) : Acc (recsHandler rc crcI crcC dcmp) := by
+  intro d v d' h
+  unfold recsHandler at h
+  split at h
+  · rename_i newRemain s heq
+    obtain ⟨n, hn, hi, hr, _⟩ := KV.RecordScan.readSet_exact rc hacc crcI crcC dcmp d.inp d.remain newRemain s heq
+    split at h
+    · split at h <;> simp at h
+    · simp only [Res.ok.injEq] at h
+      rw [← h.2]
+      exact ⟨n, hn, hi, by simp only []; omega⟩
+  · simp at h
+  · simp at h
+  · simp at h
+
+/-- **Exactly one frame leaves the connection** whenever ReadResponse returns a message — for every byte stream
+and every schema, record sets included (stumps after the last batch, batches that fail after others were decoded,
+unknown magic bytes …): the bytes consumed are the size prefix and precisely the bytes it announces.  With
+`readResponse_total_source_with_records`: error or message, and a message never eats into the next frame. -/
+theorem readResponse_consumes_frame_with_records (cfg : Cfg) (rc : KV.RecordScan.RCfg)
+    (hacc : rc.accountAfterDiscard = true) (crcI crcC : Bytes → Nat) (dcmp : Int → Bytes → Option Bytes)
+    (flex : Bool) (t : Ty) (stream : Bytes) (x : Int × Val) (d' : Dec)
+    (h : readResponse (withRecords cfg rc crcI crcC dcmp) flex t stream = .ok x d') :
+    ∃ size : Nat, 4 + size ≤ stream.length ∧ toS 32 (fromBE (stream.take 4)) = size ∧
+      d'.inp = stream.drop (4 + size) ∧ d'.remain = 0 :=
+  readResponse_consumes_frame _ (fun hh heq => by
+    have : hh = recsHandler rc crcI crcC dcmp := by
+      simp only [withRecords] at heq
+      exact (Option.some.inj heq).symm
+    subst this
+    exact recsHandler_acc rc hacc crcI crcC dcmp) flex t stream x d' h
+
+/-- … for the code as it is now (guard `accountAfterDiscard` extracted from record.go) -/
+theorem readResponse_consumes_frame_source (crcI crcC : Bytes → Nat) (dcmp : Int → Bytes → Option Bytes)
+    (flex : Bool) (t : Ty) (stream : Bytes) (x : Int × Val) (d' : Dec)
+    (h : readResponse (withRecords Gen.decoderCfg Gen.recordCfg crcI crcC dcmp) flex t stream = .ok x d') :
+    ∃ size : Nat, 4 + size ≤ stream.length ∧ toS 32 (fromBE (stream.take 4)) = size ∧
+      d'.inp = stream.drop (4 + size) ∧ d'.remain = 0 :=
+  readResponse_consumes_frame_with_records _ _ (by decide) crcI crcC dcmp flex t stream x d' h
+
+/-! ### each guard is necessary: the model without it fails on a concrete input (CRC function constantly 0) -/
+
+section Counter
+open KV.RecordScan
+
+def allOn : RCfg := ⟨true, true, true, true, true, true, true⟩
+def z : Bytes → Nat := fun _ => 0
+def nod : Int → Bytes → Option Bytes := fun _ _ => none
+
+def rPanic {α : Type} : RRes α → Bool | .panic => true | _ => false
+def rBalloon {α : Type} : RRes α → Bool | .balloon => true | _ => false
+def rRemain : RRes Int → Option Int | .ok r _ => some r | _ => none
+
+/-- a v2 batch header (61 bytes, no records) with the given numRecords bytes; crc field 0 -/
+def batch (n : Bytes) : Bytes :=
+  [0,0,0,0,0,0,0,0, 0,0,0,49, 0,0,0,0, 2, 0,0,0,0, 0,0, 0,0,0,0, 0,0,0,0,0,0,0,0, 0,0,0,0,0,0,0,0,
+   0,0,0,0,0,0,0,0, 0,0, 0,0,0,0] ++ n
+
+/-- a magic-1 message (34 bytes): null key, null value -/
+def msg1 : Bytes := [0,0,0,0,0,0,0,0, 0,0,0,22, 0,0,0,0, 1,0, 0,0,0,0,0,0,0,0, 255,255,255,255, 255,255,255,255]
+/-- … whose key length (2 → 40) runs past the message into the next one -/
+def msgLongKey : Bytes := [0,0,0,0,0,0,0,0, 0,0,0,24, 0,0,0,0, 1,0, 0,0,0,0,0,0,0,0, 0,0,0,40, 7,7, 255,255,255,255]
+
+/-- D5b: `numRecords = -1` reaches `make([]optimizedRecord, numRecords)` -/
+theorem numRecords_negative_counterexample :
+    rPanic (readSet { allOn with countsBounded := false } z z nod ([0,0,0,61] ++ batch [255,255,255,255]) 65) = true := by decide
+theorem numRecords_huge_counterexample :
+    rBalloon (readSet { allOn with countsBounded := false } z z nod ([0,0,0,61] ++ batch [127,255,255,255]) 65) = true := by decide
+/-- C20-m3: the stream ends 3 bytes into a batch although frame and record-set sizes promise 40 -/
+theorem peek_counterexample :
+    rPanic (readSet { allOn with peekChecked := false } z z nod [0,0,0,40, 1,2,3] 100) = true := by decide
+/-- a negative message size leaves the nested decoder's remain negative: the next read slices out of range -/
+theorem negative_message_size_counterexample :
+    rPanic (readSet { allOn with readGuard := false } z z nod
+      ([0,0,0,34] ++ [0,0,0,0,0,0,0,0, 255,255,255,240] ++ List.replicate 22 0) 38) = true := by decide
+/-- C20-m1: without the `n < limit` test in `writeTo` an over-long key leaves remain negative — a panic unless
+`Read` treats a non-positive remain as end of input (which it does since a30786b: then it is a plain error) -/
+theorem writeTo_counterexample :
+    rPanic (readSet { allOn with writeToGuard := false, readGuard := false } z z nod
+      ([0,0,0,72] ++ msgLongKey ++ msg1 ++ [0,0]) 76) = true := by decide
+/-- C20-m6: a 2-byte stump after the last message is skipped on the stream but not accounted for: the frame decoder
+believes 2 more bytes belong to it than do (with the guard the remaining count is 3, as it must be) -/
+theorem accounting_counterexample :
+    rRemain (readSet { allOn with accountAfterDiscard := false } z z nod ([0,0,0,36] ++ msg1 ++ [0,0] ++ [9,9,9]) 43) = some 5 ∧
+    rRemain (readSet allOn z z nod ([0,0,0,36] ++ msg1 ++ [0,0] ++ [9,9,9]) 43) = some 3 := by decide
+/-- a record set announcing more than the frame has left drives the frame's remain negative -/
+theorem set_size_counterexample :
+    rRemain (readSet { allOn with sizeChecked := false } z z nod ([0,0,0,34] ++ msg1) 10) = some (-28) := by decide
+
+end Counter
 
 /-! ### the unbounded decoder (D5, before the fix) violates the property -/
 
@@ -286,6 +493,18 @@ def brokersTy : Ty := .struct false [.array false false (.struct false [.int32, 
 
 def isBalloon {α : Type} : Res α → Bool | .balloon => true | _ => false
 def isPanic {α : Type} : Res α → Bool | .panic => true | _ => false
+
+/-- SASL raw exchange: without the negative test, `ff ff ff ff` panics; with an allocation sized by the length, 6 bytes ask for 2 GiB -/
+theorem sasl_negative_counterexample : isPanic (saslReadResp ⟨false, true⟩ [0xff, 0xff, 0xff, 0xff]) = true := by decide
+theorem sasl_alloc_counterexample : isBalloon (saslReadResp ⟨true, false⟩ [0x7f, 0xff, 0xff, 0xff, 1, 2]) = true := by decide
+
+/-- **announced is not received** (C20-D30, C20-D33): a decoder that checks every count and length against `remain` but allocates
+the announced amount upfront balloons on 12 resp. 14 bytes whose size prefix lies too -/
+def upfront : Cfg := { bounded := true, growing := false }
+theorem lying_count_counterexample :
+    isBalloon (readResponse upfront false brokersTy [0x7f,0xff,0xff,0xff, 0,0,0,7, 0x08,0,0,0]) = true := by decide
+theorem lying_length_counterexample :
+    isBalloon (readResponse upfront false (.struct false [.bytes false false] [] []) [0x7f,0xff,0xff,0xff, 0,0,0,7, 0x7f,0,0,0, 1,2]) = true := by decide
 
 theorem alloc_counterexample :
     isBalloon (readResponse unbounded false brokersTy [0,0,0,8, 0,0,0,7, 0x7f,0xff,0xff,0xff]) = true := by decide
@@ -300,7 +519,10 @@ theorem compact_len_counterexample :
 
 /-- the same three inputs are plain errors for the bounded decoder -/
 def isError {α : Type} : Res α → Bool | .error => true | _ => false
-example : isError (readResponse ⟨true⟩ false brokersTy [0,0,0,8, 0,0,0,7, 0x7f,0xff,0xff,0xff]) = true := by decide
-example : isError (readResponse ⟨true⟩ false brokersTy [0xff,0xff,0xff,0xff, 0,0,0,7, 0,0,0,0]) = true := by decide
+/-- … which are plain errors for the decoder that allocates as the data arrives -/
+example : isError (readResponse { bounded := true } false brokersTy [0x7f,0xff,0xff,0xff, 0,0,0,7, 0x08,0,0,0]) = true := by decide
+example : isError (readResponse { bounded := true } false (.struct false [.bytes false false] [] []) [0x7f,0xff,0xff,0xff, 0,0,0,7, 0x7f,0,0,0, 1,2]) = true := by decide
+example : isError (readResponse { bounded := true } false brokersTy [0,0,0,8, 0,0,0,7, 0x7f,0xff,0xff,0xff]) = true := by decide
+example : isError (readResponse { bounded := true } false brokersTy [0xff,0xff,0xff,0xff, 0,0,0,7, 0,0,0,0]) = true := by decide
 
 end KV.C20
